@@ -235,9 +235,16 @@ class World(EventDispatcher):
         (TODO) returns cached results from this method.
         """
         fringe = [component_type]
+        # With multiple inheritance a subtype is reachable through more
+        # than one base: report its components once
+        visited = set()
 
         while fringe:
             subtype = fringe.pop()
+            if subtype in visited:
+                continue
+            visited.add(subtype)
+
             fringe += subtype.__subclasses__()
 
             for entity in self._components.get(subtype, []):
